@@ -1,0 +1,18 @@
+//go:build verif
+
+// Contracts for package apostrophe (read by /verif/gocv; comment-only effect with the verif tag off).
+// C19: the apostrophe filter never panics; a term is cut at its first apostrophe, which lies inside it.
+
+package apostrophe
+
+//@ assume func bytes.IndexAny(s, chars)
+//@   pure
+//@   ensures -1 <= result && result < len(s)
+
+//@ func ApostropheFilter.Filter
+//@   props C19
+//@   mode int
+//@   requires forall(k, 0, len(input), input[k] != nil)
+//@   modifies fields(analysis.Token)
+//@   ensures result == input
+//@   loop 0: invariant forall(k, 0, len(input), input[k] != nil)
